@@ -20,6 +20,8 @@ EXHAUSTIVE = {"quick": "all (start,end) for every chromosome of length <= 24 in 
               "thorough": "all (start,end) for every chromosome of length <= 40 in each generated table"}
 MIN_NONTRIVIAL = {"quick": 5000, "thorough": 50000}
 REQUIRED_PROBES = ["region_to_extent"]
+REQUIRED_FEATURES = ["binsize:fixed", "binsize:variable", "chrom:exhaustive", "chrom:sampled", "location:nested-group",
+                     "cooler:derived+chromosome-end-near-2^31", "history:queried-after-rename_chroms", "fetch2:cross-chrom"]
 
 FAMS = ["fixed_exact", "fixed_short", "fixed_onebin", "variable", "onebin_each", "trap", "mixed", "multi_width"]
 
@@ -179,10 +181,15 @@ def check_region(c, clr, gs, grouped, cs, bt, D, pix_rows, chrom, s, e, L, rng, 
     return True
 
 
-def run_table(ctx, cid, bt, rng, maxlen, sample_big=False):
+def run_table(ctx, cid, bt, rng, maxlen, sample_big=False, derive_k=None):
     import cooler
     from cooler.util import GenomeSegmentation
 
+    fine_bt = None
+    if derive_k:
+        # the queried cooler is produced by coarsening (as every zoom level is): its stored attributes have the
+        # types the library itself derives, not the ones of a freshly binnified table
+        fine_bt, bt = bt, model.ref_coarsen_bt(bt, derive_k)
     n = gen.bt_nbins(bt)
     P = gen.gen_pixels(rng, n, True, ["sparse30", "dense", "sparse70", "emptyrows"][int(rng.integers(4))])
     path = ctx.path()
@@ -190,7 +197,15 @@ def run_table(ctx, cid, bt, rng, maxlen, sample_big=False):
     uri = path + ("::" + group if group != "/" else "")
     if group != "/" and rng.random() < 0.5:
         make_cooler(path, [["rootchrom", [0, 7, 14]]], {(0, 1): 9})   # another collection sits at the root
-    make_cooler(uri, bt, P, mode="a")
+    if derive_k:
+        fine = ctx.path()
+        Pf = gen.gen_pixels(rng, gen.bt_nbins(fine_bt), True, ["sparse30", "dense"][int(rng.integers(2))])
+        make_cooler(fine, fine_bt, Pf)
+        cooler.coarsen_cooler(fine, uri, derive_k, chunksize=10**6, mode="a")
+        os.remove(fine)
+        P = model.ref_coarsen(fine_bt, Pf, derive_k)
+    else:
+        make_cooler(uri, bt, P, mode="a")
     clr = cooler.Cooler(uri)
     D = model.dense(P, n, True)
     pix_rows = [(k, i, j, P[(i, j)]) for k, (i, j) in enumerate(sorted(P))]
@@ -203,6 +218,10 @@ def run_table(ctx, cid, bt, rng, maxlen, sample_big=False):
                   "location:root" if group == "/" else "location:nested-group")
         if gen.bt_fixed_width(bt) is None and clr.binsize is not None:
             c.feature("trap-table-reported-fixed")
+        if derive_k:
+            c.feature("cooler:derived-by-coarsen", f"binsize-attr-type:{type(clr.info.get('bin-size')).__name__}")
+            if max(e[-1] for _, e in bt) > 2**31 - 3 * (gen.bt_fixed_width(bt) or 0):
+                c.feature("cooler:derived+chromosome-end-near-2^31")
         nreg = 0
         for chrom, edges in bt:
             L = edges[-1]
@@ -243,6 +262,23 @@ def run_table(ctx, cid, bt, rng, maxlen, sample_big=False):
             c.check(np.array_equal(sp.toarray(), D[i0:i1, j0:j1]), "matrix-fetch2-sparse-wrong-block",
                     f"sparse matrix().fetch({r1},{r2}) != full block", {"bt": bt})
             c.feature("fetch2:cross-chrom" if ca != cb else "fetch2:same-chrom")
+        # history: chromosomes renamed (two names exchanged) on this live object, then queried by name again
+        if len(bt) >= 2 and len(ctx.failures) == 0 and rng.random() < 0.5:
+            a_, b_ = (int(x) for x in rng.permutation(len(bt))[:2])
+            cooler.rename_chroms(clr, {bt[a_][0]: bt[b_][0], bt[b_][0]: bt[a_][0]})
+            bt2 = [[nm, e] for nm, e in bt]
+            bt2[a_][0], bt2[b_][0] = bt[b_][0], bt[a_][0]
+            bins2 = gen.bt_frame(bt2, categorical=True)
+            cs2 = gen.bt_chromsizes(bt2)
+            gs2 = GenomeSegmentation(cs2, bins2)
+            grouped2 = bins2.groupby("chrom", observed=True)
+            c.feature("history:queried-after-rename_chroms")
+            for chrom, edges in bt2:
+                L = edges[-1]
+                pts = sorted({0, L, int(rng.integers(0, L + 1)), int(rng.integers(0, L + 1)), edges[len(edges) // 2]})
+                for s, e in [(s, e) for s in pts for e in pts if s <= e][:8]:
+                    check_region(c, clr, gs2, grouped2, cs2, bt2, D, pix_rows, chrom, s, e, L, rng, True)
+                    nreg += 1
         ctx.evaluations += nreg
         ctx.sample({"bin_table": bt, "regions_checked": nreg, "example": [bt[0][0], 0, bt[0][1][-1]]}, limit=4)
     os.remove(path)
@@ -265,7 +301,16 @@ def run_big(ctx, shard):
         bt = gen.gen_bt(rng, fam, max_chroms=4, max_bins=24, widths=(10, 1000, 4096, 100000))
         if (shard["sub"] + t) % 4 == 3:
             bt = gen.gen_giant_bt(rng)          # > 2**31 bp in total
+        derive_k = None
+        if (shard["sub"] + t) % 4 == 1:
+            # fixed-width genomic-scale table, later coarsened: chromosome ends within a few bins of 2**31
+            w = int([25_000_000, 50_000_000, 100_000_000][int(rng.integers(3))])
+            derive_k = int([2, 2, 3][int(rng.integers(3))])
+            L0 = int(rng.integers(2**31 - 2 * w, 2**31))
+            bt = [["chrG", gen.fixed_edges(L0, w)], ["chr2", gen.fixed_edges(int(rng.integers(w, 8 * w)), w)]]
+            if rng.random() < 0.5:
+                bt.reverse()
         cid = f"big:{shard['sub']}:{t}"
         r2 = ctx.rng("big-case", shard["sub"], t)
         if ctx.want(cid):
-            run_table(ctx, cid, bt, r2, 0, sample_big=True)
+            run_table(ctx, cid, bt, r2, 0, sample_big=True, derive_k=derive_k)
